@@ -151,7 +151,7 @@ PLAN = {
         'note': COMMON_TRUST + 'Statements about poriborton output (no Bengali-block code point, totality on the dictionary) are not decided.',
     },
     'C17': {
-        'bounded': ['smart_quote', 'split'],
+        'bounded': ['smart_quote', 'split', 'update_engine'],
         'level': 'proof',
         'units': ['util', 'fixed_session', 'phon', 'split'],
         'technique': 'Verus: smart_quoter == pointwise curl maps with loop invariants; placement clause (applied once, after splitting, only with the option on) in both list functions',
@@ -159,7 +159,7 @@ PLAN = {
         'note': COMMON_TRUST + 'The relational lemmas rest on one more axiom about std sorts: a comparison sort sees its elements only through the comparator (proved to be a function of the rank tags), so the arrangement it chooses is a function of the tag sequence.  Equality of the preselected index under the two settings is not a lemma (bounded check smart_quote).',
     },
     'C18': {
-        'bounded': ['emoji_tables', 'phonetic_api', 'update_engine'],
+        'bounded': ['emoji_tables', 'phonetic_api', 'update_engine', 'fixed_api'],
         'level': 'proof',
         'units': ['fixed_session', 'phon', 'rank'],
         'technique': 'Verus: emoticon / emoji-name clauses of the assembled list, with the real zip(1..).map(closure) + extend code verified in place',
